@@ -352,7 +352,9 @@ impl Biclique for AdjacencyMap {
         assert!(m > 0, "m = {m} must be greater than zero");
         assert!(n > 0, "n = {n} must be greater than zero");
 
-        let order = m + n;
+        let order = m
+            .checked_add(n)
+            .expect("a digraph has at most `usize::MAX` vertices");
         let clique_1 = (0..m).collect::<BTreeSet<_>>();
         let clique_2 = (m..order).collect::<BTreeSet<_>>();
 
